@@ -112,6 +112,8 @@ func (holComp) Gen(r *Rand, tier string, emit func(string)) {
 	}
 	emit("tcp 3")
 	emit("udp 1")
+	emit("tcp 100") // many idle connections on one session (any per-session cap on handlers shows here)
+	emit("ws 70")
 	if tier == "thorough" {
 		for _, c := range []string{"tcptls", "starttls", "wss", "udp", "dns"} {
 			emit(c + " 2")
@@ -257,6 +259,9 @@ func (stallComp) Exec(op string) (string, string, string, bool) {
 
 func (stallComp) Gen(r *Rand, tier string, emit func(string)) {
 	emit("tcp connect 1")
+	emit("tcp connect 40") // many silent peers at once (any cap on concurrent handshakes shows here)
+	emit("tcp partial 24")
+	emit("ws connect 24")
 	emit("tcp partial 1")
 	emit("tcp between 1")
 	emit("tcp afterupgrade 2")
